@@ -239,8 +239,21 @@ pub fn run(ctx: &mut Ctx) {
             2 => { let hs: Vec<u8> = (0..5).map(|_| ctx.rng.gen()).collect(); let hr: Vec<u8> = (0..7).map(|_| ctx.rng.gen()).collect(); (Handover::NFC(ByteStr::from(hs.clone()), Some(ByteStr::from(hr.clone()))), arr(vec![bytes(&hs), bytes(&hr)])) }
             _ => (Handover::OID4VP("nonce-é".into(), "aud".into()), arr(vec![text("nonce-é"), text("aud")])),
         };
+        // the first derivations with an NFC handover are tuned so that the SessionTranscript is EXACTLY 65 535, 65 536, 65 537,
+        // 255, 256, 23, 24 bytes long … (the sizes at which a CBOR byte-string head changes width)
+        let (ho, ho_c) = if i % 4 == 1 && i < 120 && i % 20 != 5 {
+            let target = [65_536usize, 65_535, 65_537, 256, 255, 65_536][(i / 4 % 6) as usize];
+            let probe = Tag24::new(SessionTranscript180135(de.clone(), key_tag.clone(), Handover::NFC(ByteStr::from(vec![0u8; 100]), None))).unwrap().inner_bytes.len();
+            // 100 bytes of handover select cost 2 head bytes; lengths 24..255 cost 2, 256..65535 cost 3
+            let fixed = probe - 100 - 2;
+            let hl = if target >= fixed + 3 + 256 { target - fixed - 3 } else if target >= fixed + 2 + 24 { target - fixed - 2 } else { 0 };
+            let hs: Vec<u8> = (0..hl).map(|_| ctx.rng.gen()).collect();
+            ctx.count(&format!("derive:transcript-tuned-to-{target}"));
+            (Handover::NFC(ByteStr::from(hs.clone()), None), arr(vec![bytes(&hs), Value::Null]))
+        } else { (ho, ho_c) };
         let st = SessionTranscript180135(de, key_tag.clone(), ho);
         let stb = Tag24::new(st).unwrap();
+        ctx.count(&format!("derive:transcript-bytes:{}", match stb.inner_bytes.len() { 65_536 => "65536", 65_535 => "65535", 65_537 => "65537", 256 => "256", 255 => "255", n if n > 65_537 => ">65537", _ => "other" }));
         let r = catch(|| (derive_session_key(&ss, &stb, true).map(|k| k.to_vec()), derive_session_key(&ss, &stb, false).map(|k| k.to_vec())));
         let obs = match r { Ok((Ok(a), Ok(b))) => arr(vec![bytes(&a), bytes(&b)]), Ok(_) => text("error"), Err(p) => arr(vec![text("panic"), text(&p)]) };
         let args = vec![bytes(&zab), bytes(&de_bytes), bytes(&keyb), ho_c];
